@@ -8,7 +8,7 @@ import schedcases
 MANIFEST = {
  "category": "proof",
  "text": "Mro/Sched.v models job scheduling (idle/running/done/failed per job, start enabled only when every dependency is done, completions, failures, resets of non-done jobs). Coq theorem C02_start_after_deps: in EVERY valid history, for every dependency relation, when a job starts each dependency has an earlier completion event, is done at that moment and stays done - by induction over unbounded histories with arbitrary interleavings, failures, crashes and resets. C02_accepted_history transfers this to any observed history the executable checker accepts with the dependency relation Mro/Deps.v derives from the program source (argument data, disabling conditions incl. enclosing calls', mapped-over collections, through pipeline inputs/returns; split < chunks < join inside a fork, C02_phase_order_deps). Tie: generated programs are run by the real mrp+mrjob under adversarial per-job delays; the stage processes themselves record start/end instants; the kernel replays each history (vm_compute of valid_trace).",
- "note": "Proof about the scheduler model + trace acceptance of real runs (fault_enumeration-style validation); goroutine interleavings inside mrp, journal-scan timing and filesystem visibility are exercised, not modelled. Preflight dependencies are not generated (runs use --nopreflight). The dependency relation is the source-level lower bound: the runtime may wait for more. Trusted: Coq kernel, event log written by the stage executable (O_APPEND, timestamps from one clock), pgen printing MRO text and Gallina term of the same program.",
+ "note": "Proof about the scheduler model + trace acceptance of real runs (fault_enumeration-style validation); goroutine interleavings inside mrp, journal-scan timing and filesystem visibility are exercised, not modelled. Preflight calls are generated (a pipeline may start with one, also inside sub-pipelines), and Mro/Deps.v makes every other call of the pipeline and everything nested in it wait for them. The dependency relation is the source-level lower bound: the runtime may wait for more. Trusted: Coq kernel, event log written by the stage executable (O_APPEND, timestamps from one clock), pgen printing MRO text and Gallina term of the same program.",
  "technique": "Coq invariant proof over all event histories of a scheduler state machine + kernel-evaluated trace acceptance of real mrp histories",
 }
 
